@@ -4,6 +4,8 @@ import XalanModel.C01.Variables
 import XalanModel.C01.Walker
 import Driver.Util
 import Driver.C01_Parse
+import Driver.C01_Core
+import XalanModel.C01.Core
 /-
 xm_c01.  Request lines:
   `xslt <id> <hex stylesheet xml> <hex document xml> D <doc records> ; <stylesheet s-expression>`
@@ -11,7 +13,7 @@ xm_c01.  Request lines:
      (the hex XML fields are for the C++ harness only)
   `xsltq <mask> <id> … same …`
      the interpreter with the engine-behaviour switches of `Quirks` selected by the bit mask
-     (1 rootPos0, 2 nsAttrLeak, 4 copyOfEmptyFlush, 8 paramLeak, 16 avtLiteralOverwrite) and the pending-start-tag model as the
+     (1 paramLeak) and the pending-start-tag model as the
      tree builder; used by the check only to classify a disagreement
   `vars <ops…>`  replays a VariablesStack operation log on `VStack`; one reply token per op
   `pend <id> <xsl> <xml> Q <ops…>`  replays engine calls on the pending-start-tag model; reply = delivered events
@@ -23,8 +25,7 @@ namespace Driver.C01
 def fuel : Nat := 4000
 
 def quirksOf (mask : Nat) : Quirks :=
-  { rootPos0 := mask % 2 = 1, nsAttrLeak := mask / 2 % 2 = 1, copyOfEmptyFlush := mask / 4 % 2 = 1,
-    paramLeak := mask / 8 % 2 = 1, avtLiteralOverwrite := mask / 16 % 2 = 1, finish := if mask = 0 then normalize else Pending.result }
+  { paramLeak := mask % 2 = 1, finish := if mask = 0 then normalize else Pending.result }
 
 def xsltStep (mask : Nat) : List String → String
   | _id :: _xsl :: _xml :: "D" :: rest =>
@@ -37,6 +38,27 @@ def xsltStep (mask : Nat) : List String → String
         match transformWith (quirksOf mask) ss doc fuel with
         | none => "err spec-undefined"
         | some evs => "ok " ++ showEvs evs
+  | _ => "err bad-request"
+
+/-! `core <id> <xsl> <xml> D <doc> ; <stylesheet>`: the stylesheet (inside the Core fragment) is run on the
+`Core` engine model with an oracle answered by `Spec.eval`; reply `ok <events>` when that equals `Spec.transform`
+as well, `core-ne-spec …` otherwise -/
+def coreStep : List String → String
+  | _id :: _xsl :: _xml :: "D" :: rest =>
+    match parseDoc rest with
+    | none => "err bad-doc"
+    | some (doc, toks) =>
+      match (readSExp toks).bind parseStylesheet with
+      | none => "err bad-stylesheet"
+      | some ss =>
+        match Driver.C01Core.toProg ss with
+        | none => "err outside-core-fragment"
+        | some P =>
+          let O := Driver.C01Core.oracle ss doc
+          match Core.run P O 300000 (Driver.C01Core.rootTemplate ss doc) (0, 1, 1), transform ss doc fuel with
+          | some evs, some sp => if evs = sp then "ok " ++ showEvs evs else "core-ne-spec " ++ showEvs evs ++ " ## " ++ showEvs sp
+          | none, _ => "err core-not-finished"
+          | _, none => "err spec-undefined"
   | _ => "err bad-request"
 
 /-! VariablesStack op log -/
@@ -61,6 +83,7 @@ def showFound : Option (Option Nat × VStack) → VStack → VStack × String
 
 partial def varsRun (s : VStack) (acc : List String) : List String → List String
   | [] => acc.reverse
+  | "mode" :: m :: r => varsRun { s with activating := m = "1" } ("ok" :: acc) r
   | "cm" :: r => varsRun s.pushContextMarker ("ok" :: acc) r
   | "pcm" :: r => varsRun s.popContextMarker ("ok" :: acc) r
   | "ef" :: e :: r => varsRun (s.pushElementFrame (e.toNat?.getD 0 % 64)) ("ok" :: acc) r
@@ -108,7 +131,7 @@ def parseEv (t : String) : Option REv :=
     | _ => none
   else none
 
-/-! walker: `walk <id> <xsl> <xml> W ( prog <template>… )`, node = `( l )` | `( b kids… )` | `( c<t> kids… )` | `( p<i> kids… )` | `( L<r> kids… )` | `( A<t1,t2,…> kids… )`;
+/-! walker: `walk <id> <xsl> <xml> W ( prog <template>… )`, node = `( l )` | `( b kids… )` | `( c<t> kids… )` | `( p<i> kids… )` | `( L<r> kids… )` | `( A<t1,t2,…> kids… )` | `( U<s1,s2,…> kids… )`;
 reply = the addresses (`t:i.j…`, root first) of the `startElement` calls of the iterative loop -/
 
 partial def parseNode : SExp → Option Walker.Node
@@ -119,6 +142,9 @@ partial def parseNode : SExp → Option Walker.Node
     else if k.startsWith "c" then ((k.drop 1).toString.toNat?).map fun t => .mk (.call t) ks
     else if k.startsWith "p" then ((k.drop 1).toString.toNat?).map fun i => .mk (.pick i) ks
     else if k.startsWith "L" then ((k.drop 1).toString.toNat?).map fun r => .mk (.loop r) ks
+    else if k = "U" then some (.mk (.uses []) ks)
+    else if k.startsWith "U" then
+      (((k.drop 1).toString.splitOn ",").mapM fun (t : String) => t.toNat?).map fun ts => .mk (.uses ts) ks
     else if k = "A" then some (.mk (.apply []) ks)
     else if k.startsWith "A" then
       (((k.drop 1).toString.splitOn ",").mapM fun (t : String) => t.toNat?).map fun ts => .mk (.apply ts) ks
@@ -159,6 +185,7 @@ def walkStep : List String → String
 def step (s : Unit) : List String → Unit × String
   | "xslt" :: rest => (s, xsltStep 0 rest)
   | "xsltq" :: mask :: rest => (s, xsltStep (mask.toNat?.getD 0) rest)
+  | "core" :: rest => (s, coreStep rest)
   | "walk" :: rest => (s, walkStep rest)
   | "vars" :: rest => (s, " ".intercalate (varsRun {} [] rest))
   | "pend" :: _id :: _xsl :: _xml :: "Q" :: rest =>
